@@ -746,12 +746,33 @@ def check_reduced_graph(ctx: Ctx) -> None:
     ctx.ob("7.6-reduced-graph", con, ok, f"the names removed from the inputs of a merged group must be the strong couplings the group computes itself (restricted to the outputs of its disciplines); found `{'; '.join(found)[:200]}`: removing every strong coupling cuts the path from another group to this one, and the total derivatives miss it", node=ups[0], stmt="only the group's own strong couplings are not inputs of the merged node")
 
 
+def check_linearization_data(ctx: Ctx) -> None:
+    """7.7 the coupled adjoint linearises every discipline at the converged data it passes (`linearize(data,
+    execute=False)` when the linearisation cache is on): the discipline's local data are set to the GIVEN data whether or
+    not it executes, or the partial Jacobians are taken at whatever point the discipline saw last."""
+    from gv.props.shared import literal_facts
+
+    DI = "core/discipline/discipline.py"
+    f = ctx.index.method(DI, "Discipline", "linearize")
+    con = cname(DI, "Discipline", "linearize")
+    cfg = cfg_of(f)
+    param = [a.arg for a in f.args.args if a.arg != "self"][0]
+    ups = [c for c in walk_body(f) if isinstance(c, ast.Call) and norm_stmt(c.func) == "self.io.data.update" and c.args and dotted(c.args[0]) == param]
+    ok = bool(ups)
+    for c in ups:
+        if any("execute" in {n_.id for n_ in ast.walk(ast.parse(k_, mode="eval")) if isinstance(n_, ast.Name)} for k_ in literal_facts(cfg, cfg.node_of(c))):
+            ok = False
+    comp = [c for c in walk_body(f) if isinstance(c, ast.Call) and isinstance(c.func, ast.Attribute) and c.func.attr in ("_compute_jacobian", "__compute_jacobian") or (isinstance(c, ast.Call) and last_attr(c) == "compute_approx_jac")]
+    ctx.ob("7.7-linearization-data", con, bool(ok), f"the local data are reset to `{param}` before the Jacobian is computed, independently of `execute`: with execute=False (linearisation cache of an MDA) the discipline would otherwise be differentiated at the point of its last stand-alone execution", node=(ups or [f])[0], stmt="io.data.update(input_data) does not depend on execute")
+
+
 def run(ctx: Ctx) -> None:
     check_reduced_graph(ctx)
     check_solve_routines(ctx)
     check_dimensions(ctx)
     check_transposition(ctx)
     check_call_site(ctx)
+    check_linearization_data(ctx)
     check_identity_blocks(ctx, "7.3", -1)
     check_cursors(ctx)
     check_cache_key(ctx)
